@@ -22,7 +22,9 @@ HARD = [r'\64 iv', r'd\69v', r'\000064iv', '\\64\niv', r'.\31 a', r'#\#x', r'[\7
         ':root:empty', ':first-child:last-child', ':only-child', ':only-of-type:first-of-type', 'a/**/>/**/b', 'a\n+\tb', ' a , b ', 'a,b,c', '/**/a/**/',
         'a /**/ b', 'a/**/ /**/b', '--x', '-a', '-\\31', 'a\\', '.a\\', '\u00e9l', '.\\10FFFF', '.\\110000 x', '.\\0 x', ':is(a b > c + d ~ e)',
         'a:not(b):is(c):where(d):matches(e)', ':matches(a,b)', ':has(a):has(b)', 'a.b.c#d#e[f][g=h]', '*', '*.a', 'a *', ':is(*)', ':not(*|*)',
-        ':nth-child(1 of *)', 'a:nth-child(2):nth-last-child(2)', ':is(a  , b)', 'a  > b', 'p /* all */* > b /* end */', 'p[t/**/*="a"] ~ #i /**/']
+        ':nth-child(1 of *)', 'a:nth-child(2):nth-last-child(2)', ':lang(en)', ':lang("en", de-DE)', ":lang( 'x y' /**/,/**/ \\64 e )", ':LANG("")',
+        ':-soup-contains(x)', ':-soup-contains-own("x y", z)', ':-SOUP-CONTAINS( a , b )', ':dir(ltr)', ':DIR( RTL )', 'p:dir(rtl):lang(en):-soup-contains(x) > a',
+        ':not(:lang(en), :dir(ltr))', ':-soup-contains("x\\\ny")', ':lang("*-ch", en-\\55 S)', ':lang(en /* de */, fr)', ':is(a  , b)', 'a  > b', 'p /* all */* > b /* end */', 'p[t/**/*="a"] ~ #i /**/']
 NS = {'ns': 'urn:n'}
 
 
@@ -41,7 +43,7 @@ def part(chk, tier, label, n_quick=500, n_thorough=8000, seed=11):
             for comp in cx['cs']:
                 if rng.random() < 0.3:
                     ex = gen.rand_extra(rng)
-                    while ex['k'] not in ('attr', 'none', 'amp', 'class', 'id'):
+                    while ex['k'] not in ('attr', 'none', 'amp', 'class', 'id', 'lang', 'contains', 'dir'):
                         ex = gen.rand_extra(rng)
                     comp.append(ex)
                 if rng.random() < 0.15 and comp and comp[0]['k'] == 'type':
